@@ -99,6 +99,8 @@ type bTheir struct {
 	NodeKey         string `json:"nodeKey"`
 	MultiSigKey     string `json:"multiSigKey"`
 	UnitsFilled     uint32 `json:"unitsFilled"`
+	// order version of the counterparty's order (ServerAsk/ServerBid.Version)
+	Version uint32 `json:"version"`
 }
 
 type bMatched struct {
@@ -568,7 +570,7 @@ func (c *bCase) prepareMsg() *auctioneerrpc.OrderMatchPrepare {
 				t := &mo.Asks[k]
 				r.MatchedAsks = append(r.MatchedAsks, &auctioneerrpc.MatchedAsk{
 					Ask: &auctioneerrpc.ServerAsk{
-						Details: bServerOrder(t), LeaseDurationBlocks: t.Duration, Version: 6,
+						Details: bServerOrder(t), LeaseDurationBlocks: t.Duration, Version: t.Version,
 					},
 					UnitsFilled: t.UnitsFilled,
 				})
@@ -577,7 +579,7 @@ func (c *bCase) prepareMsg() *auctioneerrpc.OrderMatchPrepare {
 				t := &mo.Bids[k]
 				r.MatchedBids = append(r.MatchedBids, &auctioneerrpc.MatchedBid{
 					Bid: &auctioneerrpc.ServerBid{
-						Details: bServerOrder(t), LeaseDurationBlocks: t.Duration, Version: 6,
+						Details: bServerOrder(t), LeaseDurationBlocks: t.Duration, Version: t.Version,
 						SelfChanBalance: t.SelfChanBalance,
 					},
 					UnitsFilled: t.UnitsFilled,
@@ -630,7 +632,8 @@ func (a *bAcct) nextScript(sv poolscript.Version, expiry uint32) (string, error)
 	var secret [32]byte
 	sb, _ := hex.DecodeString(a.Secret)
 	copy(secret[:], sb)
-	s, err := poolscript.AccountScript(sv, expiry, tk, ak, poolscript.IncrementKey(bk), secret)
+	// independent derivation (batch_script.go) – never through poolscript
+	s, err := bIndepNextAccountScript(uint8(sv), expiry, tk, ak, bk, secret)
 	if err != nil {
 		return "", err
 	}
@@ -1332,7 +1335,7 @@ func (c *bCase) oracleC02() (string, string) {
 			if bSupportsUpgrade(c.Msg.Version) && newVer > ver {
 				ver = newVer
 			}
-			if account.ValidateVersion(account.Version(ver)) != nil {
+			if ver != 0 && ver != 1 && ver != 2 { // the three account versions that exist
 				return fmt.Sprintf("account output for unsupported account version %d accepted", ver), "C02/new-version"
 			}
 			// (an unchanged timelock is the account's own, bounded when the
@@ -1340,7 +1343,7 @@ func (c *bCase) oracleC02() (string, string) {
 			if exp != a.Expiry && uint64(exp) > uint64(c.Best)+uint64(bMaxAccountExpiry) {
 				return fmt.Sprintf("account output timelock %d is more than the maximum account lifetime after height %d", exp, c.Best), "C02/new-expiry"
 			}
-			s, err := a.nextScript(account.Version(ver).ScriptVersion(), exp)
+			s, err := a.nextScript(bScriptVersion(uint8(ver)), exp)
 			if err != nil || s != out.Script {
 				return "account output does not pay to the account's next script", "C02/script"
 			}
